@@ -44,6 +44,7 @@ def instances(tier, seed):
     out.append(dict(name='typing:chain4', family='typing', graph='chain4', cost=400))
     out.append(dict(name='typing:star4', family='typing', graph='star4', cost=300))
     out.append(dict(name='retype', family='retype', cost=20))
+    out.append(dict(name='typekey:crosshair', family='crosshair', cost=10))
     if tier == 'thorough':
         out.append(dict(name='typing:ring5', family='typing', graph='ring5', cost=3000))
         out.append(dict(name='typing:branched5', family='typing', graph='branched5', cost=3000))
@@ -58,8 +59,73 @@ def canon(seq):
     return min(seq, seq[::-1])
 
 
+CROSSHAIR_KERNEL = """
+from typing import Tuple
+from mofun.helpers import typekey
+
+
+def _typekey2(t: Tuple[int, int]) -> Tuple[int, ...]:
+    '''
+    post: __return__ == typekey(tuple(reversed(t)))
+    post: __return__ == t or __return__ == tuple(reversed(t))
+    '''
+    return typekey(t)
+
+
+def _typekey3(t: Tuple[int, int, int]) -> Tuple[int, ...]:
+    '''
+    post: __return__ == typekey(tuple(reversed(t)))
+    post: __return__ == t or __return__ == tuple(reversed(t))
+    '''
+    return typekey(t)
+
+
+def _typekey4(t: Tuple[int, int, int, int]) -> Tuple[int, ...]:
+    '''
+    post: __return__ == typekey(tuple(reversed(t)))
+    post: __return__ == t or __return__ == tuple(reversed(t))
+    '''
+    return typekey(t)
+
+
+def _typekey4_injective(a: Tuple[int, int, int, int], b: Tuple[int, int, int, int]) -> bool:
+    '''
+    post: __return__ == (a == b or a == tuple(reversed(b)))
+    '''
+    return typekey(a) == typekey(b)
+"""
+
+
+def crosshair_body(ctx, p):
+    """second engine: CrossHair 0.0.110 on the pure-Python kernel typekey (contracts above); every condition must be
+    'Confirmed over all paths' - a counterexample or an unconfirmed condition fails the obligation"""
+    import os
+    import shutil
+    import subprocess
+    import tempfile
+    from symnp import loader
+    d = tempfile.mkdtemp()
+    try:
+        open(os.path.join(d, 'typekey_contracts.py'), 'w').write(CROSSHAIR_KERNEL)
+        env = dict(os.environ, PYTHONPATH=loader.REPO)
+        exe = os.path.join(os.path.dirname(os.path.dirname(os.path.abspath(__file__))), '.venv', 'bin', 'crosshair')
+        if not os.path.exists(exe):
+            exe = '/verif/.venv/bin/crosshair'
+        r = subprocess.run([exe, 'check', '--report_all', '--per_condition_timeout', '30', 'typekey_contracts.py'], cwd=d, env=env,
+                           capture_output=True, text=True, timeout=400)
+        out = r.stdout + r.stderr
+        confirmed = out.count('Confirmed over all paths')
+        ctx.observe('confirmed', confirmed)
+        ctx.require('CrossHair confirms all 7 typekey contract conditions over all paths', confirmed == 7 and 'error' not in out.lower(),
+                    detail=dict(output=out[-600:]))
+    finally:
+        shutil.rmtree(d)
+
+
 def body(ctx, p):
     fam = p['family']
+    if fam == 'crosshair':
+        return crosshair_body(ctx, p)
     H = ctx.ms.helpers
     if fam == 'typekey':
         k = p['k']
